@@ -17,7 +17,8 @@ def terms(e, sign=1, out=None):
     if v is not None and not (isinstance(e, dict) and e.get("k") == "ref"):
         out["k"] += sign * v
         return out
-    if isinstance(e, dict) and e.get("k") == "ref" and v is not None and e.get("kind") in ("global", "enumerator"):
+    if isinstance(e, dict) and e.get("k") == "ref" and v is not None and e.get("kind") in ("global", "enumerator", "local"):
+        # (a local only carries a value when the compiler's constant evaluator gave it one: `constexpr size_t chunk_size = 8;`)
         out["k"] += sign * v
         return out
     out["t"].append((sign, rn(e)))
